@@ -391,4 +391,18 @@ theorem independent_blocks_plain_a : type_of% @GM.Props.C09Shift.independent_blo
     the invariant `TopLast`: the first open block is the Document's last child), and closes them with the same call". -/
 theorem prefix_reached_plain : type_of% @GM.Props.C09Shift.prefix_reached_plain := @GM.Props.C09Shift.prefix_reached_plain
 
+/-- (package shiftsim, round 4) **C09 first half on a positional class**: for every first part `a` that ends with a line feed and in which
+    no line starts, after its quote markers and indentation, with a list, setext or fence trigger (digits, dashes, stars, equal signs and
+    backticks INSIDE lines are allowed), every heading text `h` and EVERY document `b`: the blocks of `a`, the heading, the blocks of `b`. -/
+theorem independent_blocks_positional : type_of% @GM.Props.C09Shift.independent_blocks_positional := @GM.Props.C09Shift.independent_blocks_positional
+
+/-- (package shiftsim, round 4) the same through the executable test `positionalCheck` (proved sound) -/
+theorem independent_blocks_checked : type_of% @GM.Props.C09Shift.independent_blocks_checked := @GM.Props.C09Shift.independent_blocks_checked
+
+/-- (package shiftsim, round 4) both classes: `a` empty, or ending with a line feed and positional -/
+theorem independent_blocks_wide : type_of% @GM.Props.C09Shift.independent_blocks_wide := @GM.Props.C09Shift.independent_blocks_wide
+
+/-- (package shiftsim, round 4) `PrefixReached` for the positional class -/
+theorem prefix_reached_positional : type_of% @GM.Props.C09Shift.prefix_reached_positional := @GM.Props.C09Shift.prefix_reached_positional
+
 end GM.Props.C09
